@@ -109,6 +109,25 @@ def _run_scripts(tier, seed):
                         v = e2.viol('script-shape-differs', 'separator-whitespace|' + cnt, f'{diff}', text, {}, 'script', 1)
                         v['base'] = base_text[key]
                         acc.violation(v)
+            # the batch separator keyword GO, in every letter case and whitespace spelling
+            base_sh = None
+            for go in ('GO', 'go', 'Go', 'gO', 'GO 2', 'go 2'):
+                for w in ('\n', ' ', '\r\n'):
+                    text = (w + go + w).join(stmts)
+                    sh = _shape_of(sqlparse, text)
+                    key = go.split()[-1] if ' ' in go else ''
+                    if base_sh is None or key not in base_sh:
+                        base_sh = base_sh or {}
+                        base_sh[key] = (sh, text)
+                        acc.case(text, False, outcome='script-base')
+                        continue
+                    acc.case(text, True, outcome='script-respelling', sample={'base': base_sh[key][1], 'respelled': text})
+                    if sh != base_sh[key][0]:
+                        b0 = base_sh[key][0]
+                        cnt = f'{len(b0) if isinstance(b0, tuple) else "?"}->{len(sh) if isinstance(sh, tuple) else "?"} statements'
+                        v = e2.viol('script-shape-differs', 'GO-keyword-spelling|' + cnt, 'GO respelled', text, {}, 'script', 1)
+                        v['base'] = base_sh[key][1]
+                        acc.violation(v)
         return acc.dump()
     return core.merge(core.pmap(work, core.chunked(cases, core.NPROC * 4))), len(cases)
 
